@@ -22,6 +22,7 @@ import (
 	"go/token"
 	"os"
 	"path/filepath"
+	"regexp"
 	"sort"
 	"strconv"
 	"strings"
@@ -1024,7 +1025,7 @@ func main() {
 	emitCond(root, c, "tasks", "responses", "responsesSkip", "(c : Int) : Bool", func(fd *ast.FuncDecl) ast.Expr {
 		var found ast.Expr
 		ast.Inspect(fd.Body, func(n ast.Node) bool {
-			if is, ok := n.(*ast.IfStmt); ok && found == nil && is.Init != nil && strings.HasPrefix(src(is.Init), "c := ErrorCode(task.err)") {
+			if is, ok := n.(*ast.IfStmt); ok && found == nil && is.Init != nil && regexp.MustCompile(`^c := ErrorCode\(\w+\.err\)`).MatchString(src(is.Init)) {
 				if len(is.Body.List) == 1 && src(is.Body.List[0]) == "continue" {
 					found = is.Cond
 				}
